@@ -1,5 +1,6 @@
 import GrcovModel.Lcov
 import GrcovModel.Lemmas.LcovWriter
+import GrcovModel.Lemmas.LcovUtf8
 import GrcovModel.Drv.Merge
 namespace Grcov.Drv
 open Grcov
@@ -26,6 +27,14 @@ def handleUtf8Lossy : List String → String
     | some bs => toHex (Lcov.utf8Lossy bs)
     | none => "bad-op"
   | [] => ""
+  | _ => "bad-op"
+
+/-- `utf8valid <hex>` → `1` iff the bytes are well-formed UTF-8 (`Lcov.validUtf8`) -/
+def handleUtf8Valid : List String → String
+  | [h] => match fromHex h with
+    | some bs => if Lcov.validUtf8 bs then "1" else "0"
+    | none => "bad-op"
+  | [] => "1"
   | _ => "bad-op"
 
 /-- `lcov.print K<hexpath>=<cov> …` → hex of the report bytes `printLcov` writes -/
